@@ -276,8 +276,9 @@ CHECKS = {
             "issubset/issuperset is modelled by the builder's union (NFA.union itself belongs to C08); the comparator can answer "
             "'out of fuel' on very large operands (reported, never silently accepted).",
             "Defect demonstrated on the unrepaired tree: a blank-only regex passes validate but from_regex raises IndexError.", "7/C11"),
-    "C15": ("Coq theorems about mirror models of the DFA language constructors (incl. the KMP failure table of from_substring and the "
-            "Aho-Corasick construction of from_substrings, written decision by decision after the code) + differential correspondence "
+    "C15": ("Coq theorems about mirror models of the DFA language constructors (incl. the KMP failure table of from_substring, the "
+            "Aho-Corasick construction of from_substrings and the Mihov-Schulz incremental construction of from_finite_language, "
+            "written decision by decision after the code) + differential correspondence "
             "(exact tables, proved comparator, word-level predicates, executable minimality test)",
             "Proved for all alphabets, all parameters, both values of every flag, partial and complete forms, and all words over all "
             "symbols (unbounded): from_prefix, from_subsequence, of_length (with symbols_to_count), count_mod (remainder sets, "
@@ -299,14 +300,25 @@ CHECKS = {
             "by exact table equality (the Aho-Corasick model is fed the iteration order of the very set object the implementation "
             "gets) + proved comparator (all words) + validity on every pattern of length <= 4 over 1-3 symbols, all small numeric "
             "parameters and random pattern sets (incl. sets with the empty pattern and with symbols outside the "
-            "alphabet). from_finite_language: no Coq model - judged on every run against the Coq boolean predicates on all words up "
-            "to length 6-7, an independent Python predicate, and (all words) the trie built by the harness through the proved "
-            "comparator. Minimality: executable is_minimal evaluated by the extracted code on every result whose docstring promises "
+            "alphabet). from_finite_language: the MIRROR model of the incremental construction (the tables transitions / back_map / "
+            "final_states / signatures_dict as association lists updated as the code updates them, add_to_trie, compress from the "
+            "longest prefix down to the common prefix with the next word of sorted(language), redirection of the parents' edges to "
+            "the registered state with the same signature (frozenset of the row = row sorted by symbol), the final "
+            "compress(prev_word, ''), renaming of the surviving prefixes to numbers, validate(), _to_complete with a fresh trap; the "
+            "language is a list in any order, theorems for all duplicate-free lists): for all words over the alphabet it never "
+            "raises, returns a valid DFA, partial / complete as requested, accepting exactly the listed words, empty_language for the "
+            "empty list (C15_from_finite_language_lang), and the result is minimal of its kind in both forms "
+            "(C15_from_finite_language_minimal: invariant 'states off the path of the last word are exactly the registered ones, "
+            "pairwise distinguishable, all states reachable and live'; the root differs from the others by a longest word; side "
+            "condition of the complete form: non-empty alphabet). Tied to the code on every run: same refusal for a word with a "
+            "symbol outside the alphabet, proved comparator (all words), and EXACT table equality after renaming the "
+            "implementation's prefix-named states through the model's list of state names; plus the Coq boolean predicates on all "
+            "words up to length 6-7, an independent Python predicate, and (all words) the trie built by the harness. Minimality: executable is_minimal evaluated by the extracted code on every result whose docstring promises "
             "the minimal DFA; it is proved sound (C15_is_minimal_sound: minimal among complete DFAs, and among all DFAs when flagged "
             "partial, from the Myhill-Nerode lower bound of C05) and complete; the constructor models are proved minimal for ALL "
             "parameters (C15_constructors_minimal: universal/empty, from_subsequence, from_substring/from_suffix, from_prefix, "
             "of_length with a non-empty range and a counted symbol, nth_from_start, nth_from_end) by explicit access and distinguishing "
-            "words. Not modelled: from_finite_language.",
+            "words. count_mod is not promised minimal.",
             "Fixed finding (genuine defect, found while proving the Aho-Corasick language theorem; fix ae299fb): from_substrings "
             "(must_be_suffix=False) with a pattern that contains a symbol outside the alphabet - end_state = len(transitions) collided "
             "with the label of a visited trie node, e.g. DFA.from_substrings({'a'}, {'bb','aa'}) accepted 'a'; the reproducer stays as a "
